@@ -87,6 +87,9 @@ func (x *Exec) acquire(st *State, pos token.Pos, recv *Val) {
 		x.assumeGuar(st, st.lastRelease, recv)
 	}
 	x.assumeInv(st, recv)
+	if st.lastRelease != nil {
+		x.assumeTimeless(st)
+	}
 	st.held = 1
 	st.secStart = st.Snapshot()
 	if x.firstSec == nil && x.vc.quiet == 0 {
@@ -175,5 +178,20 @@ func (x *Exec) lockAccess(st *State, sname, path, ref, what string) {
 	x.lockAccesses++
 	if st.held != 1 {
 		x.lockViolations = append(x.lockViolations, fmt.Sprintf("%s of %s without holding Raft.mu at %s", what, key, x.e.pos(x.curPos)))
+	}
+}
+
+// assumeTimeless: the `assume` clauses of the function under verification are facts about the
+// environment that hold at any time (A-ES, A-LM, A-NOOVF, A-IOOK ...): they are assumed again for
+// the state found after every re-acquisition of the lock (and at the head of a loop that releases
+// it), not only at entry.
+func (x *Exec) assumeTimeless(st *State) {
+	for fr := x.frame; fr != nil; fr = fr.parent {
+		if fr.fi == x.top && fr.contract != nil {
+			for _, c := range fr.contract.ClausesOf("assume") {
+				st.Assume(x.cevalClause(c, st, fr))
+			}
+			return
+		}
 	}
 }
